@@ -58,6 +58,7 @@ def R(w, h, sc, sr, steps, maxseg=4, to=900):
                  defines=["MODE=1", "PW=%d" % w, "PH=%d" % h, "SC=%d" % sc, "SR=%d" % sr, "MAXSEG=%d" % maxseg, "NSTEPS=%d" % steps],
                  gen=gen_walk, unwind=max(w * h, 2 * maxseg * maxseg, steps) + 2, unwindset=["walk_segment.0:%d" % (h + 1), "walk_segment.1:%d" % (w + 1)],
                  funcs=F, timeout=to, mem_gb=24,
+                 checks=["--unwinding-assertions", "--drop-unused-functions", "--no-standard-checks"],   # explicit assertions only; memory safety of the same code is in the geometry queries
                  bound="picture %dx%d superblocks, requested segment grid %dx%d (cols x rows), 3 workers, %d symbolic scheduler steps" % (w, h, sc, sr, steps),
                  what="each superblock once, dependency order, completion, lock discipline under every worker schedule")
 def G(w, h, sc, sr, maxseg=8, to=900):
